@@ -54,6 +54,9 @@ type Case struct {
 	// Huge k: every coordinate (nodes, link geometry, query points) was multiplied exactly by 2^k, k from 520 to 700: link
 	// lengths are still ordinary float64 numbers, their squares are not
 	Huge int `json:"huge,omitempty"`
+	// Before (round 13): before the judged query, queries from the SAME starting point to these nodes are issued on
+	// the complete network; their results are not judged, but they must not change the answer of the judged one
+	Before []int `json:"before,omitempty"`
 }
 
 type EarlyQ struct {
@@ -226,6 +229,11 @@ func gen(t *rapid.T) Case {
 		ne := rapid.IntRange(1, 3).Draw(t, "nearly")
 		for i := 0; i < ne; i++ {
 			c.Early = append(c.Early, EarlyQ{After: rapid.IntRange(1, len(c.Links)-1).Draw(t, "after"), From: q("efrom"), To: q("eto")})
+		}
+	}
+	if rapid.Bool().Draw(t, "before") {
+		for i, nb := 0, rapid.IntRange(1, 6).Draw(t, "nbefore"); i < nb; i++ {
+			c.Before = append(c.Before, rapid.IntRange(0, n-1).Draw(t, "beforenode"))
 		}
 	}
 	if !jitter && !c.Bisector && !c.Micro && (rapid.IntRange(0, 4).Draw(t, "faraway") == 2 || grid && rapid.Bool().Draw(t, "gridfar")) {
@@ -461,6 +469,12 @@ func run(c Case) (v vkit.Verdict) {
 	E, de := nearest(c.To)
 	var rt geom.MultiLineString
 	var dist, tm, sd, ed float64
+	for _, k := range c.Before {
+		if k < len(c.Nodes) {
+			v.Class("after_queries_from_the_same_start")
+			vkit.Catch(func() { net.ShortestRoute(c.From.Pt(), c.Nodes[k].Pt()) })
+		}
+	}
 	if p := vkit.Catch(func() { rt, dist, tm, sd, ed = net.ShortestRoute(c.From.Pt(), c.To.Pt()) }); p != "" {
 		return v.Fail("ShortestRoute panicked: %s", p)
 	}
@@ -618,7 +632,8 @@ func TestProp(t *testing.T) {
 			"than the fewest-links chain between the same nodes. Distinct by case hash." +
 			" Round 10: 'trap' networks (1 eligible case in 8): moved 1e8 along x only, two more nodes and links so that a link end lies within tolerance of a node that is not its nearest." +
 			" Round 11: one eligible case in twelve multiplies every coordinate by 2^520, 2^540, 2^600 or 2^700." +
-			" Round 12: one case in 150 has 2200-3200 nodes, all linked.",
+			" Round 12: one case in 150 has 2200-3200 nodes, all linked." +
+			" Round 13: one case in two issues one to six queries from the same starting point to other nodes on the complete network before the judged query (not judged themselves).",
 		Assumptions: []string{"ties for the nearest node are resolved by accepting any nearest node"},
 		Gen:         gen,
 		Run:         run,
